@@ -392,6 +392,9 @@ func hubStacks(all string) string {
 	if len(keep) == 0 {
 		return all
 	}
+	sort.SliceStable(keep, func(i, j int) bool { // the hub loop first
+		return strings.Contains(keep[i], "crossbar.(*Hub).run") && !strings.Contains(keep[j], "crossbar.(*Hub).run")
+	})
 	return strings.Join(keep, "\n\n")
 }
 
@@ -676,9 +679,9 @@ func oracleScenario(c Case, idx int, res *lib.Result) {
 	last := "setup"
 	if n := len(r.Steps); n > 0 {
 		last = r.Steps[n-1].K
-		if r.Class == 1 && n < len(c.Scen.Steps) {
-			last = c.Scen.Steps[n].K // died while doing the next one
-		}
+	}
+	if n := len(r.Steps); r.Class == 1 && n < len(c.Scen.Steps) && (n > 0 || c.Kind == "api" || r.Steps == nil) {
+		last = c.Scen.Steps[n].K // died while doing the next one
 	}
 	hist := scenString(c.Scen, len(r.Steps)+1)
 	switch r.Class {
